@@ -27,6 +27,15 @@ CLAIMED = {
   "Known finding K1 (imported source packages are initialised while the importer is still compiled) printed as KNOWN-FINDING. Two overwrite sites are frozen exceptions with their reason in the checker (c12Overwrites).",
   "call-graph reachability + SSA dominance + reaching-definitions dataflow on go/cfg (error discipline lint)", "DESIGN.md §2 C12"),
 
+ "C13": ("other",
+  "Table and effect rules of restricted mode: forbidden packages absent from the default table (keys, values, imports) and writers of the binary-package table; every extract.restricted replacement declared, bound under the name it replaces, call-compatible, opaque, and with no static call path to a process exit; no default binding returning the real *log.Logger; every os environment function (slot-filled from the os package's SSA) overridden in the restricted branch by a closure over the interpreter's env map only; every fmt/log/flag function using the host's streams, std logger or CommandLine (slot-filled by SSA of the installed library) overridden per interpreter; os.Args and the print builtins; the binary-package table never aliasing the caller's map. Liveness of the host in general (other ways for a bound function to exit), fd 0/1/2 I/O and sequences of environment operations are not decided.",
+  "Reference = SSA of os/log/fmt/flag of the installed toolchain; static callees only. Known findings K4 (log.Default, slog.NewLogLogger, syslog.NewLogger hand out the real logger) and K5 (31 flag functions use the host's CommandLine) are printed as KNOWN-FINDING.",
+  "table/who-may-write lint + effect rules slot-filled from the SSA of the reference library (custom go/ssa analyzer)", "DESIGN.md §2 C13"),
+ "C14": ("translation_validation",
+  "Complete validation of the committed output of the extract translator against its input: every one of the ~16 000 (quick: host platform, both releases) / ~187 000 (thorough: all 47 GOOS/GOARCH of syscall, both releases) binding entries is checked to denote its namesake in one of the generated forms, untyped constants are compared exactly with go/constant, the bound name sets are compared with the library's exported non-generic objects per release (GOROOT/api deltas), table keys / duplicates / build-constraint headers are checked, and every interface wrapper is checked field-by-field and method-by-method (signature identity, forwarding call shape). The space is finite and enumerated completely.",
+  "Trusted: go/types, go/constant, GOROOT/api of the installed toolchain; Go 1 compatibility for go1.21/go1.22 symbols judged against the 1.23.5 library. Known finding K10 (11 math float constants bound with a rounded literal, both releases) is printed as KNOWN-FINDING. Completeness of syscall on platforms GOROOT/api does not describe is not decided (stated per platform in the evidence).",
+  "translation validation of generated tables against go/types + go/constant + GOROOT/api (custom analyzer)", "DESIGN.md §2 C14"),
+
  "C17": ("other",
   "Static agreement of yaegi's file-selection code with the go/build reference sources: OS/arch table key sets, the tag conditions of matchTag, //go:build support, gating of read/parse by the verdict on every go/cfg path, orientation of the release comparison. Necessary structural conditions of the property; the boolean evaluation of arbitrary constraint lines is not decided.",
   "Trusted: go/types, go/cfg, GOROOT/src/go/build of the installed toolchain as the reference. Known findings K8/K9 (unix and implied-OS tags, //go:build lines) are printed as KNOWN-FINDING.",
